@@ -1,6 +1,6 @@
 (* Extraction of the EBLIF reader/writer models for the correspondence runs (engine "eblif").
    ExtrOcamlBasic only; nat, N, positive stay extracted inductives; no Extract Constant. *)
 From Coq Require Extraction ExtrOcamlBasic.
-From SV Require Import Base.Base Fmt.Blif Fmt.BlifRead Fmt.BlifWrite.
+From SV Require Import Base.Base Fmt.Blif Fmt.BlifRead Fmt.BlifWrite Fmt.BlifSpec.
 Extraction Language OCaml.
-Extraction "eblif_model.ml" classify elab_stmts elab emit pni split_eq dec.
+Extraction "eblif_model.ml" classify elab_stmts elab emit pni split_eq dec supported roundtrippable equiv_b rt_check.
